@@ -59,7 +59,9 @@ def value_to_json(value: object) -> object:
         try:
             value.encode("utf-8")
         except UnicodeEncodeError:
-            return {"string": repr(value)}
+            # ascii() instead of repr(), which depends on the Python version for the
+            # characters it considers printable
+            return {"string": ascii(value)}
         return value
     if value == ...:
         return {"type": "ellipsis"}
